@@ -288,7 +288,7 @@ open Lean.Parser.Tactic in
 macro "pystepE" "[" ls:simpLemma,* "]" : tactic =>
   `(tactic| (rw [exc_block_cons]
              conv in (evalStmt _ _ _) =>
-               simp [evalStmt, evalExpr, evalBlock, evalArgs, evalKws, assignTo, $ls,*]
+               simp [evalStmt, evalExpr, evalBlock, evalArgs, evalKws, assignTo, bindNames, $ls,*]
              try dsimp only))
 
 open Lean.Parser.Tactic in
@@ -296,7 +296,7 @@ open Lean.Parser.Tactic in
 macro "pystep" "[" ls:simpLemma,* "]" : tactic =>
   `(tactic| (rw [runM_block_cons]
              conv in (runM (evalStmt _ _ _) _) =>
-               simp [evalStmt, evalExpr, evalBlock, evalArgs, evalKws, assignTo, $ls,*]
+               simp [evalStmt, evalExpr, evalBlock, evalArgs, evalKws, assignTo, bindNames, $ls,*]
              try dsimp only))
 
 end Viv.Py
